@@ -13,7 +13,9 @@ import (
 	"net/netip"
 	"os"
 	"os/exec"
+	"os/signal"
 	"path/filepath"
+	"runtime"
 	"strings"
 	"syscall"
 	"testing"
@@ -117,6 +119,9 @@ func (s *altStorage) Profiles(context.Context, *profiledb.StorageProfilesRequest
 
 // TestChild is the storing child; it does nothing unless the role is set.
 func TestChild(t *testing.T) {
+	if os.Getenv("VERIF_C14_ROLE") == "faulty" {
+		faultyChild()
+	}
 	if os.Getenv("VERIF_C14_ROLE") != "storer" {
 		t.Skip("child role not set")
 	}
@@ -141,8 +146,53 @@ func TestChild(t *testing.T) {
 	os.Exit(0)
 }
 
-type refVersion struct {
-	ans map[lkey]lookupResult
+// faultyChild stores B, A, B, … (or A, B, …) over an existing good cache while
+// writes to the cache temp file fail: either because RLIMIT_FSIZE is smaller
+// than the file (SIGXFSZ ignored, write returns a short count and then EFBIG)
+// or because the parent runs it under strace with an injected ENOSPC.  All
+// its syscalls happen on one locked OS thread so that strace's per-thread
+// "when=N" is a position in the store sequence.  It reports what every
+// Refresh returned.
+func faultyChild() {
+	runtime.LockOSThread()
+	cache := os.Getenv("VERIF_C14_CACHE")
+	iters := 4
+	if s := os.Getenv("VERIF_C14_MAXITER"); s != "" {
+		fmt.Sscan(s, &iters)
+	}
+	if s := os.Getenv("VERIF_C14_FSIZE"); s != "" {
+		var lim uint64
+		fmt.Sscan(s, &lim)
+		signal.Ignore(syscall.SIGXFSZ)
+		if err := syscall.Setrlimit(syscall.RLIMIT_FSIZE, &syscall.Rlimit{Cur: lim, Max: lim}); err != nil {
+			fmt.Println("child-error setrlimit", err)
+			os.Exit(3)
+		}
+	}
+	first := 0
+	lastGood := os.Getenv("VERIF_C14_INITIAL")
+	if lastGood == "A" {
+		first = 1
+	}
+	st := &altStorage{n: first}
+	db, err := newDB(st, cache, 0)
+	if err != nil {
+		fmt.Println("child-error", err)
+		os.Exit(3)
+	}
+	failed, ok := 0, 0
+	for i := 0; i < iters; i++ {
+		if err = db.Refresh(context.Background()); err != nil {
+			failed++
+			fmt.Printf("store-failed %d %s %v\n", i, st.last, err)
+		} else {
+			ok++
+			lastGood = st.last
+			fmt.Printf("stored %d %s\n", i, st.last)
+		}
+	}
+	fmt.Printf("summary failed=%d ok=%d last_good=%s\n", failed, ok, lastGood)
+	os.Exit(0)
 }
 
 func loadAll(db profiledb.Interface, keys []lkey) map[lkey]lookupResult {
@@ -197,6 +247,7 @@ func atomicReplace(r *vkit.Run, dir string) {
 	// setting lost by store/load, which has its own key, is not mistaken for a
 	// torn file)
 	refs := map[string]map[lkey]lookupResult{}
+	refBytes := map[string][]byte{}
 	_ = os.MkdirAll(filepath.Join(dir, "atomic-ref"), 0o755)
 	for _, tag := range []string{"A", "B"} {
 		refCache := filepath.Join(dir, "atomic-ref", tag+".pb")
@@ -216,6 +267,7 @@ func atomicReplace(r *vkit.Run, dir string) {
 			return
 		}
 		refs[tag] = loadAll(db2, keys)
+		refBytes[tag], _ = os.ReadFile(refCache)
 	}
 	if ok, _ := sameAs(refs["A"], refs["B"]); ok || !refs["A"][lkey{K: kDev, Dev: "s0"}].a.Found {
 		r.Inconclusive("the two cache versions are not distinguishable")
@@ -224,17 +276,23 @@ func atomicReplace(r *vkit.Run, dir string) {
 	adir := filepath.Join(dir, "atomic")
 	_ = os.MkdirAll(adir, 0o755)
 	cache := filepath.Join(adir, "profiles.pb")
+	useStrace := straceUsable(adir)
+	if os.Getenv("C14_SKIP_FAILED_STORES") == "" {
+		failedStores(r, adir, cache, keys, refs, refBytes, useStrace)
+	}
+	if os.Getenv("C14_SKIP_KILLS") != "" {
+		return
+	}
 
 	type plan struct {
 		method string // "random" or the injected syscall
 		when   int
 	}
 	var plans []plan
-	nRandom := r.N(16, 200)
+	nRandom := r.N(20, 200)
 	for i := 0; i < nRandom; i++ {
 		plans = append(plans, plan{"random", i})
 	}
-	useStrace := straceUsable(adir)
 	if useStrace {
 		for _, sc := range []string{"renameat", "fsync", "write"} {
 			n := r.N(4, 30)
@@ -274,7 +332,7 @@ func atomicReplace(r *vkit.Run, dir string) {
 				"-e", fmt.Sprintf("inject=%s:signal=SIGKILL:when=%d", inj, pl.when), os.Args[0]}
 			cmd = exec.Command("strace", append(sargs, args...)...)
 		}
-		cmd.Env = append(os.Environ(), "VERIF_C14_ROLE=storer", "VERIF_C14_CACHE="+cache, "VERIF_C14_MAXITER=60")
+		cmd.Env = append(childEnv(), "VERIF_C14_ROLE=storer", "VERIF_C14_CACHE="+cache, "VERIF_C14_MAXITER=60")
 		cmd.Stderr = nil
 		out, err := cmd.StdoutPipe()
 		if err != nil {
@@ -387,6 +445,160 @@ func atomicReplace(r *vkit.Run, dir string) {
 		r.Eval(fmt.Sprintf("atomic/%s/stored%d/tmp%v", pl.method, stored%2, tmp > 0), true)
 		if pi == 3 || (pl.method == "fsync" && pl.when == 2) {
 			r.Sample(map[string]any{"part": "atomic", "case": w})
+		}
+	}
+}
+
+// childEnv is the environment of a child: the race runtime must not sleep a
+// second at exit.
+func childEnv(extra ...string) []string {
+	env := []string{}
+	for _, e := range os.Environ() {
+		if strings.HasPrefix(e, "GORACE=") {
+			e += " atexit_sleep_ms=0"
+		}
+		env = append(env, e)
+	}
+	return append(env, extra...)
+}
+
+// failedStores is the fault-injection family of part 5: the write(2) of the
+// cache temp file FAILS (EFBIG through RLIMIT_FSIZE, ENOSPC injected by
+// strace) while an older complete cache exists.  Whatever Store reports, the
+// cache file must be one of the two complete versions, namely the one of the
+// last store that reported success, and a database restarted from it must
+// answer as that version.
+func failedStores(r *vkit.Run, adir, cache string, keys []lkey, refs map[string]map[lkey]lookupResult, refBytes map[string][]byte, useStrace bool) {
+	type plan struct {
+		method  string // "rlimit" | "enospc"
+		param   int64
+		initial string
+	}
+	szA, szB := int64(len(refBytes["A"])), int64(len(refBytes["B"]))
+	if szA == 0 || szB < 4*szA {
+		r.Inconclusive("reference cache files are missing or too similar in size")
+		return
+	}
+	var plans []plan
+	limits := []int64{0, 1, 512, szA - 1, szA + 16, 4096, szB / 2, szB - 1}
+	if r.Thorough() {
+		for i := int64(1); i < 24; i++ {
+			limits = append(limits, szB*i/24+i)
+		}
+	}
+	for _, l := range limits {
+		for _, init := range []string{"A", "B"} {
+			plans = append(plans, plan{"rlimit", l, init})
+		}
+	}
+	if useStrace {
+		for n := int64(1); n <= int64(r.N(6, 10)); n++ {
+			plans = append(plans, plan{"enospc", n, "AB"[n%2 : n%2+1]})
+		}
+	}
+	for pi, pl := range plans {
+		_ = os.RemoveAll(adir)
+		_ = os.MkdirAll(adir, 0o755)
+		dbI, err := newDB(&fixedStorage{resp: versionResp(pl.initial)}, cache, 0)
+		if err == nil {
+			err = dbI.Refresh(context.Background())
+		}
+		if err != nil {
+			r.Inconclusive("cannot pre-store the initial version: " + fmt.Sprint(err))
+			return
+		}
+		args := []string{"-test.run=^TestChild$", "-test.timeout=120s"}
+		env := childEnv("VERIF_C14_ROLE=faulty", "VERIF_C14_CACHE="+cache, "VERIF_C14_INITIAL="+pl.initial, "VERIF_C14_MAXITER=4")
+		var cmd *exec.Cmd
+		if pl.method == "rlimit" {
+			cmd = exec.Command(os.Args[0], args...)
+			env = append(env, fmt.Sprintf("VERIF_C14_FSIZE=%d", pl.param))
+		} else {
+			sargs := []string{"-f", "-qq", "-o", "/dev/null", "-e", "trace=write",
+				"-e", fmt.Sprintf("inject=write:error=ENOSPC:when=%d", pl.param), os.Args[0]}
+			cmd = exec.Command("strace", append(sargs, args...)...)
+		}
+		cmd.Env = env
+		event := fmt.Sprintf("failed-store plan %d: method=%s param=%d initial=%s", pi, pl.method, pl.param, pl.initial)
+		ctx, cancel := context.WithTimeout(context.Background(), 120*time.Second)
+		cmd2 := exec.CommandContext(ctx, cmd.Path, cmd.Args[1:]...)
+		cmd2.Env = env
+		outB, runErr := cmd2.Output()
+		cancel()
+		lines := strings.Split(string(outB), "\n")
+		failed, okStores := 0, 0
+		lastGood, summary := "", ""
+		var report []string
+		for _, l := range lines {
+			switch {
+			case strings.HasPrefix(l, "store-failed "):
+				failed++
+				report = append(report, trunc(l))
+			case strings.HasPrefix(l, "stored "):
+				okStores++
+				report = append(report, l)
+			case strings.HasPrefix(l, "summary "):
+				summary = l
+				fmt.Sscanf(l, "summary failed=%d ok=%d last_good=%s", &failed, &okStores, &lastGood)
+			case strings.HasPrefix(l, "child-error"):
+				report = append(report, l)
+			}
+		}
+		if summary == "" {
+			// the child did not finish (or its summary write was the injected one)
+			r.Bucket("failed_store_child_without_summary", 1)
+			r.Bucket("failed_store_child_without_summary:"+pl.method, 1)
+			if os.Getenv("C14_DEBUG") != "" {
+				fmt.Println(event, "no summary:", runErr, string(outB))
+			}
+			continue
+		}
+		r.Bucket("failed_store_cases", 1)
+		r.Bucket("failed_store_cases:"+pl.method, 1)
+		r.Bucket("failed_stores_observed", int64(failed))
+		r.Bucket("failed_stores_observed:"+pl.method, int64(failed))
+		r.Bucket("failed_store_successful_stores", int64(okStores))
+		raw, rerr := os.ReadFile(cache)
+		dbK, err := newDB(&failingStorage{}, cache, ivlNever)
+		if err != nil {
+			r.Inconclusive("profiledb.New after failed stores: " + err.Error())
+			return
+		}
+		got := loadAll(dbK, keys)
+		okA, diffA := sameAs(got, refs["A"])
+		okB, diffB := sameAs(got, refs["B"])
+		is := ""
+		switch {
+		case okA && !okB && int64(len(raw)) == szA:
+			is = "A"
+		case okB && !okA && int64(len(raw)) == szB:
+			is = "B"
+		}
+		if is != "" {
+			if string(raw) == string(refBytes[is]) {
+				r.Bucket("failed_store_file_bytes_equal_reference", 1)
+			} else {
+				r.Bucket("failed_store_file_bytes_differ_but_load_equal", 1)
+			}
+		}
+		w := map[string]any{"plan": event, "child_report": report, "summary": summary, "file_size": len(raw), "read_error": fmt.Sprint(rerr),
+			"size_of_A": szA, "size_of_B": szB, "differs_from_A": diffA, "differs_from_B": diffB, "exit": fmt.Sprint(runErr)}
+		switch {
+		case is == "" && failed > 0:
+			r.Violation("atomic-replace:failed-store-replaced-cache-with-partial-file",
+				fmt.Sprintf("a store whose write failed (%s; Refresh returned an error %d time(s)) left a cache file of %d bytes that is neither complete version (A=%d, B=%d bytes); a restarted database does not answer as the last good cache. A failed write must not be followed by the atomic replace (do not CloseAtomicallyReplace after a Write error; Cleanup instead)",
+					event, failed, len(raw), szA, szB), w)
+		case is == "":
+			r.Violation("atomic-replace:file-is-neither-version", fmt.Sprintf("after %s the cache file (%d bytes) loads as neither complete version", event, len(raw)), w)
+		case lastGood != "" && is != lastGood:
+			r.Violation("atomic-replace:cache-is-not-last-successful-store",
+				fmt.Sprintf("after %s the cache file is complete version %s, but the last store that reported success was %s", event, is, lastGood), w)
+		default:
+			r.Bucket("failed_store_file_is_last_good:"+is, 1)
+		}
+		r.Eval(fmt.Sprintf("failed-store/%s/init%s/failed%d/ok%d", pl.method, pl.initial, failed, okStores), failed > 0)
+		if pi == 5 {
+			r.Sample(map[string]any{"part": "failed-store", "case": w})
 		}
 	}
 }
